@@ -41,8 +41,15 @@ def impl(case):
     audit, contests, cvrs, rng = _build(case)
     before = [(c.id, copy.deepcopy(c.votes), c.phantom) for c in cvrs]
     tp, pool = rng.choice([None, "pool-7"]), (rng.random() < 0.5)
-    out, n = CVR.make_phantoms(audit=audit, contests=contests, cvr_list=cvrs, prefix=case["prefix"],
-                               tally_pool=tp, pool=pool)
+    if case.get("call") == "defaults":
+        # optional arguments that hold their documented defaults (prefix='phantom-', tally_pool=None, pool=False) are
+        # left out of the call; the three required ones go by position
+        kw = ({} if case["prefix"] == "phantom-" else {"prefix": case["prefix"]}) | \
+             ({} if tp is None else {"tally_pool": tp}) | ({} if pool is False else {"pool": pool})
+        out, n = CVR.make_phantoms(audit, contests, cvrs, **kw)
+    else:
+        out, n = CVR.make_phantoms(audit=audit, contests=contests, cvr_list=cvrs, prefix=case["prefix"],
+                                   tally_pool=tp, pool=pool)
     k = len(cvrs)
     same = (len(out) >= k and all(a is b for a, b in zip(out[:k], cvrs))
             and [(c.id, c.votes, c.phantom) for c in cvrs] == before)
@@ -176,7 +183,26 @@ def gen_random(rng):
             "contests": cons, "cvrs": cvrs, "vseed": rng.randint(0, 10 ** 6)}
 
 
+def gen_options(rng):
+    """CVR.make_phantoms called the short way (OPTIONS_AUDIT.md): audit, contests, cvr_list by position, and
+    `prefix` / `tally_pool` / `pool` left out whenever they hold their defaults ('phantom-', None, False)"""
+    c = gen_random(rng)
+    if rng.chance(0.7):
+        c["prefix"] = "phantom-"
+    c["call"] = "defaults"
+    return c
+
+
 def gen(rng, n, tier):
+    import hashlib
+    from ..core import Rng
+    opt = Rng(int(hashlib.sha1(("options" + repr(rng.getstate())).encode()).hexdigest()[:15], 16))
+    yield from gen_main(rng, n, tier)
+    for _ in range(max(8, n // 15)):
+        yield gen_options(opt)
+
+
+def gen_main(rng, n, tier):
     ex = list(gen_exhaustive(rng, 3 if tier == "quick" else 4))
     if len(ex) > n // 2:
         rng.shuffle(ex); ex = ex[: n // 2]
